@@ -126,6 +126,45 @@ def setter_lines():
     return out
 
 
+def api_lines(rnd, samples3=120, bufs=False):
+    """systematic API exploration: for every generator kind, every sequence of up to two edit calls over a small
+    alphabet of calls the kind offers (plus sampled sequences of three), on two argument sets"""
+    import itertools
+    out = []
+    argsets = [("a1=010203040506 a2=0a0b0c0d0e0f a3=101112131415", "ssid=6f6c64 ch=6"), ("a1=ffffffffffff a2=000000000000 a3=020000000001", "ssid=- ch=255")]
+    for kind in KINDS:
+        tag_ops = ["a:0:-", "a:0:4142", "a:3:07", "a:5:" + "11" * 8, "a:221:0050f20401", "a:48:0100", "a:255:" + "22" * 255, "r:0", "r:3", "r:5", "r:221"]
+        alpha = []
+        if kind in TAGGED:
+            alpha += tag_ops
+        if kind in ("beacon", "probe_resp"):
+            alpha += ["s:4e45", "s:-", "s:" + "5a" * 32]
+        if kind in ("beacon", "probe_resp", "assoc_resp", "reassoc_resp"):
+            alpha += ["c:1", "c:200"]
+        if kind in ("action", "action_noack"):
+            alpha = ["d:01", "d:-", "d:" + "33" * 100, "d:" + "44" * 155, "d:" + "55" * 156, "f"]
+        seqs = [()] + [(x,) for x in alpha] + list(itertools.product(alpha, repeat=2))
+        if alpha:
+            seqs += [tuple(rnd.choice(alpha) for _ in range(3)) for _ in range(samples3)]
+        for ai, (macs, sc) in enumerate(argsets):
+            kv = macs
+            if kind in ("beacon", "probe_req", "probe_resp", "assoc_req", "reassoc_req"):
+                kv += " " + sc
+            elif kind in ("assoc_resp", "reassoc_resp"):
+                kv += " " + sc.split()[1]
+            if kind == "reassoc_req":
+                kv += " ap=0a0a0a0a0a0a"
+            if kind in ("beacon", "probe_resp", "timing_ad"):
+                kv += " clk=%d:%d" % (1 + ai, 999999999 * ai)
+            for q in (seqs if ai == 0 else seqs[: 1 + len(alpha)]):
+                l = "gen %s %s" % (kind, kv) + ((" ops=" + ",".join(q)) if q else "")
+                if bufs:
+                    l += " buf=%d" % rnd.choice([0, 1, 23, 24, 25, 36, 40, 64, 300, 2000])
+                if len(l) < 3000:
+                    out.append(l)
+    return out
+
+
 def check(ctx):
     ctx.rule = ("every generator (16 kinds): boundary arguments (all-zero / all-FF MACs, SSID lengths 0..33 and 255, every channel, every action category, boundary 16-bit reason/duration values%s) "
                 "and seeded random arguments followed by random histories of appended tags / action details up to the one-octet limit (and, marked `full`, setter/remove edits); "
@@ -138,6 +177,7 @@ def check(ctx):
     rnd = random.Random(ctx.seed)
     fw.run_suite(ctx, exe, "S-gen/boundary", boundary_lines(), "frame generation")
     fw.run_suite(ctx, exe, "S-gen/setter-sequences", setter_lines(), "frame generation after setter / remove sequences")
+    fw.run_suite(ctx, exe, "S-gen/api-sequences", api_lines(random.Random(ctx.seed + 5), 120 if ctx.tier == "quick" else 2000), "frame generation after a short call sequence")
     n = 250 if ctx.tier == "quick" else 4000
     lines = [gen_line(rnd, k, full=(i % 3 == 0)) for k in KINDS for i in range(n)]
     fw.run_suite(ctx, exe, "S-gen/random", lines, "frame generation")
